@@ -24,9 +24,10 @@ theorem useDefaults_total (p : Prefs) : useDefaults p = some Prefs.default := by
 theorem prefsRead_subset_defaulted : ∀ n ∈ prefsRead, n ∈ prefsDefaulted.map (·.1) := by decide
 
 /-- T6.1c: the fields `useDefaults` assigns are exactly the fields of the model's record (a preference added or
-removed upstream breaks this) and exactly the documented ones -/
-theorem defaulted_fields_are_the_record : prefsDefaulted.map (·.1) = Prefs.fieldNames ∧
-    prefsDocumented = Prefs.fieldNames := by decide
+removed upstream breaks this) and exactly the documented ones — as sets, the order of the statements is free -/
+theorem defaulted_fields_are_the_record :
+    (∀ n ∈ prefsDefaulted.map (·.1), n ∈ Prefs.fieldNames) ∧ (∀ n ∈ Prefs.fieldNames, n ∈ prefsDefaulted.map (·.1)) ∧
+    (∀ n ∈ prefsDocumented, n ∈ Prefs.fieldNames) ∧ (∀ n ∈ Prefs.fieldNames, n ∈ prefsDocumented) := by decide
 
 /-- T6.1d: the minified preset only assigns preferences that exist, and `useDefaults` undoes it -/
 theorem minified_then_defaults (p : Prefs) :
@@ -256,5 +257,12 @@ theorem finding_nth_plus_fusion :
       (.selector true [.mk [116] (.tup [97]), .mk [112] (.str [58, 110, 116, 104, 45, 99, 104, 105, 108, 100, 40]),
         .mk [68] (.str [50, 110]), .mk t_plus (.str [43]), .mk [78] (.str [49]), .mk [102] (.str [41])])
       = [97, 58, 110, 116, 104, 45, 99, 104, 105, 108, 100, 40, 50, 110, 43, 49, 41] := rfl
+
+/-- **finding C06-hash-in-unknown-rule**: `minimizeColorHash` shortens every item of type HASH, also inside an unknown
+at-rule where it need not be a colour: `@x #aabbcc;` is written `@x #abc;` -/
+theorem finding_hash_in_unknown_rule :
+    doRule Prefs.default 0 0 (.unknown (.mk true [64, 120]
+      [.str t_S [32], .str t_HASH [35, 97, 97, 98, 98, 99, 99], .str t_CHAR [59]]))
+      = .ok [64, 120, 32, 35, 97, 98, 99, 59] := rfl
 
 end CssVerif.C06
